@@ -50,10 +50,15 @@ type VerifC22Toggles struct {
 	Introspect bool // EnableTokenIntrospection
 	OAuth      bool // SetOAuthResourceMetadata
 	Cors       bool // SetCorsOrigins
+	MaxReq     bool // SetMaxRequestBytes(VerifC22MaxReq): the pre-dispatch 413 refusal
 }
 
 // VerifC22NumToggles is the lattice dimension.
-const VerifC22NumToggles = 11
+const VerifC22NumToggles = 12
+
+// VerifC22MaxReq is the max_request_bytes value used when MaxReq is on (below
+// the introspection route's own body cap, above every request the harness sends).
+const VerifC22MaxReq = 4096
 
 // VerifC22Prefix is the route prefix used when Prefix is on.
 const VerifC22Prefix = "/vgi"
@@ -70,7 +75,7 @@ const VerifC22IntrospectorPrincipal = "introspector"
 // VerifC22FromMask decodes a lattice mask.
 func VerifC22FromMask(m uint32) VerifC22Toggles {
 	b := func(i uint) bool { return m&(1<<i) != 0 }
-	return VerifC22Toggles{b(0), b(1), b(2), b(3), b(4), b(5), b(6), b(7), b(8), b(9), b(10)}
+	return VerifC22Toggles{b(0), b(1), b(2), b(3), b(4), b(5), b(6), b(7), b(8), b(9), b(10), b(11)}
 }
 
 // VerifC22Apply configures h for one lattice point through the public setters,
@@ -119,6 +124,9 @@ func VerifC22Apply(h *HttpServer, t VerifC22Toggles, auth AuthenticateFunc, reso
 				return "https://idp.invalid/authorize", "https://idp.invalid/token", true
 			}
 		}
+	}
+	if t.MaxReq {
+		h.SetMaxRequestBytes(VerifC22MaxReq)
 	}
 	if t.Cors {
 		h.SetCorsOrigins("https://app.example.com")
@@ -285,9 +293,12 @@ func verifC22Request(pat string) *http.Request {
 	return r
 }
 
-type verifC22Uploader struct{}
+type verifC22Uploader struct{ calls *int }
 
-func (verifC22Uploader) GenerateUploadURL(*arrow.Schema) (UploadURL, error) {
+func (u verifC22Uploader) GenerateUploadURL(*arrow.Schema) (UploadURL, error) {
+	if u.calls != nil {
+		*u.calls++
+	}
 	return UploadURL{UploadURL: "https://storage.invalid/put", DownloadURL: "https://storage.invalid/get",
 		ExpiresAt: time.Unix(2000000000, 0).UTC()}, nil
 }
@@ -297,7 +308,32 @@ func (verifC22Uploader) GenerateUploadURL(*arrow.Schema) (UploadURL, error) {
 // patterns whose probe was answered 401, and those whose probe consulted the
 // authenticator.
 func verifC22Point(t VerifC22Toggles) (reg, rej, consulted map[string]bool, ok bool) {
-	reg, rej, consulted = map[string]bool{}, map[string]bool{}, map[string]bool{}
+	reg, rej, consulted, _, ok = verifC22PointV(t)
+	return
+}
+
+// VerifC22URLMarker occurs in every URL the verification upload providers mint.
+const VerifC22URLMarker = "storage.invalid"
+
+// VerifC22Vended reports whether a pre-signed URL appears anywhere in a response.
+func VerifC22Vended(hdr http.Header, body []byte) bool {
+	for _, vs := range hdr {
+		for _, v := range vs {
+			if strings.Contains(v, VerifC22URLMarker) {
+				return true
+			}
+		}
+	}
+	return bytes.Contains(body, []byte(VerifC22URLMarker))
+}
+
+// verifC22PointV additionally returns the patterns for which a second probe,
+// declaring a Content-Length above max_request_bytes, made the upload-URL
+// provider run or put a pre-signed URL on the response (must be none: the
+// caller is rejected by the authenticator).
+func verifC22PointV(t VerifC22Toggles) (reg, rej, consulted, vended map[string]bool, ok bool) {
+	reg, rej, consulted, vended = map[string]bool{}, map[string]bool{}, map[string]bool{}, map[string]bool{}
+	minted := 0
 	defer func() {
 		if recover() != nil {
 			ok = false
@@ -314,13 +350,13 @@ func verifC22Point(t VerifC22Toggles) (reg, rej, consulted map[string]bool, ok b
 	}
 	resolver := func(string) (TokenIdentity, bool, error) { return TokenIdentity{Principal: "p"}, true, nil }
 	custom := func(w http.ResponseWriter, _ *http.Request) { w.WriteHeader(http.StatusOK) }
-	if _, err := VerifC22Apply(h, t, auth, resolver, verifC22Uploader{}, custom); err != nil {
-		return reg, rej, consulted, false
+	if _, err := VerifC22Apply(h, t, auth, resolver, verifC22Uploader{&minted}, custom); err != nil {
+		return reg, rej, consulted, vended, false
 	}
 	defer VerifC22StopReaper(h)
 	pats, pok := VerifC22Patterns(h)
 	if !pok {
-		return reg, rej, consulted, false
+		return reg, rej, consulted, vended, false
 	}
 	for _, p := range pats {
 		reg[p] = true
@@ -337,8 +373,17 @@ func verifC22Point(t VerifC22Toggles) (reg, rej, consulted map[string]bool, ok b
 		if calls > 0 {
 			consulted[p] = true
 		}
+		// the same probe, declared larger than the request cap
+		minted = 0
+		big := verifC22Request(p)
+		big.ContentLength = VerifC22MaxReq + 1
+		rec = httptest.NewRecorder()
+		h.ServeHTTP(rec, big)
+		if minted > 0 || VerifC22Vended(rec.Header(), rec.Body.Bytes()) {
+			vended[p] = true
+		}
 	}
-	return reg, rej, consulted, true
+	return reg, rej, consulted, vended, true
 }
 
 func init() {
@@ -359,11 +404,12 @@ func init() {
 		regs := make([]map[string]bool, len(points))
 		rejs := make([]map[string]bool, len(points))
 		cons := make([]map[string]bool, len(points))
+		vens := make([]map[string]bool, len(points))
 		all := map[string]bool{}
 		okAll := int64(1)
 		for i, m := range points {
 			var ok bool
-			regs[i], rejs[i], cons[i], ok = verifC22Point(VerifC22FromMask(m))
+			regs[i], rejs[i], cons[i], vens[i], ok = verifC22PointV(VerifC22FromMask(m))
 			if !ok {
 				okAll = 0
 			}
@@ -402,9 +448,10 @@ func init() {
 			return string(b)
 		}
 		// row = lattice mask (2 bytes BE) ++ registered (8) ++ rejected-401 (8) ++ consulted (8)
+		//       ++ vended-on-over-cap-probe (8)
 		rows := make([]string, len(points))
 		for i, m := range points {
-			rows[i] = be(uint64(m), 2) + be(mask(regs[i]), 8) + be(mask(rejs[i]), 8) + be(mask(cons[i]), 8)
+			rows[i] = be(uint64(m), 2) + be(mask(regs[i]), 8) + be(mask(rejs[i]), 8) + be(mask(cons[i]), 8) + be(mask(vens[i]), 8)
 		}
 		// status of the path-canonicalisation redirect of this toolchain's ServeMux
 		rec := httptest.NewRecorder()
@@ -412,6 +459,7 @@ func init() {
 		return []VerifConst{
 			verifNum("c22_tie_ok", okAll),
 			verifNum("c22_num_toggles", VerifC22NumToggles),
+			verifNum("c22_max_req", VerifC22MaxReq),
 			verifNum("c22_redirect_status", int64(rec.Code)),
 			verifBytes("c22_prefix_seg", strings.TrimPrefix(VerifC22Prefix, "/")),
 			verifBytes("c22_upload_seg", UploadURLMethod),
